@@ -268,7 +268,7 @@ func runC11(e *Env) {
 	}
 	maxTok, bound := 9, 2
 	if e.Thorough {
-		maxTok, bound = 12, 3
+		maxTok, bound = 10, 3
 	}
 	type base struct {
 		toks []chordlang.Tok
@@ -298,8 +298,11 @@ func runC11(e *Env) {
 		if len(b.toks) > 14 {
 			bb = 1
 		}
-		if e.Thorough && len(b.toks) <= 6 {
-			bb = 99 // full product for short sentences
+		if e.Thorough && len(b.toks) > 8 {
+			bb = 2
+		}
+		if e.Thorough && len(b.toks) <= 4 {
+			bb = 99 // full product for the shortest sentences
 		}
 		st := mc.Explore(bb, 0, func(ch *mc.Chooser) {
 			c := c11Case{Mode: b.mode, Key: b.key, Base: b.toks, Path: "lib"}
@@ -307,7 +310,7 @@ func runC11(e *Env) {
 				c11Eval(e, &c, mc.NewReplay(ch.Choices()), true)
 			}
 			if ch.Deviations() > 0 {
-				e.R.NonTrivial(fmt.Sprint(bi, ch.Choices()))
+				e.R.NonTrivialN(1) // choice vectors of one Explore call are distinct by construction
 				e.R.Trace(1)
 			}
 			e.R.Transition(1)
@@ -319,7 +322,7 @@ func runC11(e *Env) {
 		execs += st.Executions
 		e.R.State(fmt.Sprint("sentence:", bi))
 	}
-	e.R.AddPart(ev.Part{Name: "spelling-variants", Enumerated: fmt.Sprintf("%d base sentences (accepted token sequences <= %d tokens in both notations + 4 longer ones); all variants with <= %d deviations (full product for sentences <= 6 tokens in thorough); real binary for the 1-deviation variants of every 4th sentence (quick) / all (thorough)", len(bases), maxTok, bound), Executions: execs, States: int64(len(bases)), Transitions: execs, Exhaustive: true, Note: fmt.Sprintf("%d generated variants do not read back as the same tokens and were skipped", atomic.LoadInt64(&c11NotPreserving))})
+	e.R.AddPart(ev.Part{Name: "spelling-variants", Enumerated: fmt.Sprintf("%d base sentences (accepted token sequences <= %d tokens in both notations + 4 longer ones); all variants with <= %d deviations (in thorough 3 for sentences <= 8 tokens, 2 beyond, full product for sentences of 4 tokens); real binary for the 1-deviation variants of every 4th sentence (quick) / all (thorough)", len(bases), maxTok, bound), Executions: execs, States: int64(len(bases)), Transitions: execs, Exhaustive: true, Note: fmt.Sprintf("%d generated variants do not read back as the same tokens and were skipped", atomic.LoadInt64(&c11NotPreserving))})
 	if len(bases) > 0 {
 		b := bases[len(bases)-4]
 		e.R.Sample(map[string]any{"canonical": c11Build(b.toks, mc.NewReplay(nil)), "variant_example": "C\t♯ _m7 [01 ,\n2]"})
